@@ -229,6 +229,26 @@ func c15API(c *Ctx, optName string, opts ...larking.MuxOption) {
 			c.SpecFail("api-deadline", optName+" "+tv, fmt.Sprint("panic ", pn), "response", "C15/api/panic", "panic")
 			continue
 		}
+		// the model of what serveGRPC does with the header: refused | run under a deadline
+		{
+			impl := "refused"
+			if inv > 0 && hd {
+				impl = "run deadline"
+			} else if inv > 0 {
+				impl = "run none"
+			} else if rec.Code == 200 {
+				impl = "run deadline" // a zero timeout may expire before the handler runs
+			}
+			model := c.Drv.Ask(join("gate", hexS(tv)))
+			if strings.HasPrefix(model, "run ") && model != "run none" {
+				model = "run deadline"
+			}
+			c.res.Corresponded++
+			if model != impl {
+				c.res.NDisagree++
+				c.res.Disagree = append(c.res.Disagree, Case{Kind: "api-gate", Input: optName + " grpc-timeout=" + tv, Impl: impl, Model: model})
+			}
+		}
 		if !legal {
 			// the same header on a streaming method: its handler runs as soon as the stream is set up
 			rs := httptest.NewRequest("POST", "/verif.v1.Svc/DlS", strings.NewReader(string(grpcFrame(0, nil))))
